@@ -1,9 +1,10 @@
 /-
 Props/C04_ApeFile.lean — C04 ("opening any byte sequence … then saving or deleting … either succeeds or raises
-MutagenError") for the model of APEv2-tagged files, for EVERY byte string of at least 32 bytes: `_APEv2Data`
-(`locate`), `APEv2.save`, `APEv2.delete`.  (Below 32 bytes `io.BytesIO` clamps the `seek(-32, 2)` that a real file
-refuses, the first eight bytes can be taken for a footer at offset 0, and `delete_bytes` is then asked for bytes beyond
-the file: the model follows the in-memory stream there, and the examples at the end show it.)
+MutagenError") for the model of APEv2-tagged files, for EVERY byte string: `_APEv2Data` (`locate`), `APEv2.save`,
+`APEv2.delete`.  (Before `_seek_back` the statements excluded files below 32 bytes: `io.BytesIO` stopped the
+`seek(-32, 2)` at offset 0 where a file opened by name refuses it, the first eight bytes could be taken for a footer at
+offset 0, and `delete_bytes` was then asked for bytes beyond the file.  The code now refuses every seek in front of the
+file on every kind of file object; the examples at the end show the former exception.)
 -/
 import MutagenModel.Proofs.Container.ApeFile
 set_option linter.unusedVariables false
@@ -24,37 +25,40 @@ theorem fixBroken_le (f : Bytes) (fuel s : Nat) : fixBroken f fuel s ≤ s := by
     unfold fixBroken
     split
     · omega
-    · simp only []
-      split
-      · have := ih (s - 24); omega
+    · split
       · omega
+      · simp only []
+        split
+        · have := ih (s - 24); omega
+        · omega
 
 set_option maxRecDepth 8000 in
-theorem findMetadata_footer (f : Bytes) (h32 : 32 ≤ f.length) (p : Nat) (h : findMetadata f = .footer p) :
+theorem findMetadata_footer (f : Bytes) (p : Nat) (h : findMetadata f = .footer p) :
     p + 32 ≤ f.length := by
   unfold findMetadata at h
   simp only [] at h
   split at h
-  · have := Meta.footer.inj h; omega
+  · cases h
   · split at h
-    · rename_i q hq
-      have hq' := Meta.footer.inj h
-      subst hq'
-      -- every branch of viaV1 that yields `some q`
-      repeat' split at hq
-      all_goals first | (cases hq; done) | (have := Option.some.inj hq; omega) | skip
-    · split at h <;> cases h
+    · have := Meta.footer.inj h; omega
+    · split at h
+      · rename_i q hq
+        have hq' := Meta.footer.inj h
+        subst hq'
+        -- every branch of viaV1 that yields `some q`
+        repeat' split at hq
+        all_goals first | (cases hq; done) | (have := Option.some.inj hq; omega) | skip
+      · split at h <;> cases h
 
-/-- what `locate` returns lies inside the file (files of at least 32 bytes: in shorter ones `io.BytesIO` clamps the
-`seek(-32, 2)` that a real file refuses, and the first 8 bytes are taken for a footer at offset 0) -/
-theorem locate_inside (f : Bytes) (h32 : 32 ≤ f.length) (L : Loc) (h : locate f = .ok (some L)) :
+/-- what `locate` returns lies inside the file -/
+theorem locate_inside (f : Bytes) (L : Loc) (h : locate f = .ok (some L)) :
     L.start ≤ L.endd ∧ L.endd ≤ f.length := by
   unfold locate at h
   cases hm : findMetadata f with
   | nothing => rw [hm] at h; cases h
   | footer ft =>
     rw [hm] at h
-    have hft := findMetadata_footer f h32 ft hm
+    have hft := findMetadata_footer f ft hm
     simp only [] at h
     repeat' split at h
     all_goals first | (cases h; done) | skip
@@ -74,8 +78,8 @@ theorem locate_inside (f : Bytes) (h32 : 32 ≤ f.length) (L : Loc) (h : locate 
       simp only []
       omega
 
-/-- C04 for `APEv2.save` on ANY bytes of at least 32 bytes and any rendered tag: success or apev2.error -/
-theorem ape_save_clean (f : Bytes) (tag : Bytes) (h32 : 32 ≤ f.length) : ∀ e, ApeF.save f tag = .error e → e = .mutagen := by
+/-- C04 for `APEv2.save` on ANY bytes and any rendered tag: success or apev2.error -/
+theorem ape_save_clean (f : Bytes) (tag : Bytes) : ∀ e, ApeF.save f tag = .error e → e = .mutagen := by
   intro e h
   unfold ApeF.save at h
   cases hl : locate f with
@@ -85,13 +89,13 @@ theorem ape_save_clean (f : Bytes) (tag : Bytes) (h32 : 32 ≤ f.length) : ∀ e
     cases o with
     | none => cases h
     | some L =>
-      have := locate_inside f h32 L hl
+      have := locate_inside f L hl
       simp only [] at h
       repeat' split at h
       all_goals first | (cases h; done) | omega
 
 /-- C04 for `APEv2.delete` -/
-theorem ape_delete_clean (f : Bytes) (h32 : 32 ≤ f.length) : ∀ e, ApeF.delete f = .error e → e = .mutagen := by
+theorem ape_delete_clean (f : Bytes) : ∀ e, ApeF.delete f = .error e → e = .mutagen := by
   intro e h
   unfold ApeF.delete at h
   cases hl : locate f with
@@ -101,7 +105,7 @@ theorem ape_delete_clean (f : Bytes) (h32 : 32 ≤ f.length) : ∀ e, ApeF.delet
     cases o with
     | none => cases h
     | some L =>
-      have := locate_inside f h32 L hl
+      have := locate_inside f L hl
       simp only [] at h
       repeat' split at h
       all_goals first | (cases h; done) | omega
@@ -111,9 +115,12 @@ theorem ape_delete_clean (f : Bytes) (h32 : 32 ≤ f.length) : ∀ e, ApeF.delet
 ValueError from save/delete) -/
 example : locate ([0x41, 0x50, 0x45, 0x54, 0x41, 0x47, 0x45, 0x58, 0xd0, 7, 0, 0, 0xe8, 3, 0, 0, 0, 0, 0, 0, 0, 0, 0, 0xa0] ++
     zeros 8 ++ List.replicate 50 0x78) = .error .mutagen := by decide +kernel
-/-- the excluded small-file case: 24 bytes that start with "APETAGEX" (size field 32: the footer alone) -/
+/-- the formerly excluded small-file case: 24 bytes that start with "APETAGEX" (size field 32: the footer alone) were
+taken for a footer at offset 0 and `delete` raised ValueError; `_seek_back(32)` refuses, there is no tag -/
 example : ApeF.delete [0x41, 0x50, 0x45, 0x54, 0x41, 0x47, 0x45, 0x58, 0xd0, 7, 0, 0, 32, 0, 0, 0, 0, 0, 0, 0, 0, 0, 0, 0] =
-    .error .value := by decide +kernel
+    .ok [0x41, 0x50, 0x45, 0x54, 0x41, 0x47, 0x45, 0x58, 0xd0, 7, 0, 0, 32, 0, 0, 0, 0, 0, 0, 0, 0, 0, 0, 0] := by decide +kernel
+/-- the eight bytes "APETAGEX": no tag (`io.BytesIO` used to end in apev2.error, a file opened by name in "no tag") -/
+example : locate [0x41, 0x50, 0x45, 0x54, 0x41, 0x47, 0x45, 0x58] = .ok none := by decide +kernel
 /-- a size field below the 32 bytes of the footer it is read from: refused ("APE tag size smaller than its footer"; before,
 `read(size - 32)` with a negative length: to the end of an in-memory stream, ValueError on a buffered file) -/
 example : locate (List.replicate 40 0x78 ++ [0x41, 0x50, 0x45, 0x54, 0x41, 0x47, 0x45, 0x58, 0xd0, 7, 0, 0, 8, 0, 0, 0] ++ zeros 16) =
